@@ -8,7 +8,12 @@ use std::sync::{Arc, Mutex};
 pub struct Slot {
     pub ticks: AtomicU64,
     pub active: AtomicBool,
+    /// per exploration run: JSON {"base": replay doc without ops, "alphabet": [...]}
+    pub ctx: Mutex<String>,
+    /// per state: JSON list of the operations leading to the state being expanded
     pub desc: Mutex<String>,
+    /// index (in the alphabet) of the operation being applied
+    pub aux: AtomicU64,
 }
 
 static SLOTS: Mutex<Vec<Arc<Slot>>> = Mutex::new(Vec::new());
@@ -21,7 +26,7 @@ fn my() -> Arc<Slot> {
     MY.with(|m| {
         let mut m = m.borrow_mut();
         if m.is_none() {
-            let s = Arc::new(Slot { ticks: AtomicU64::new(0), active: AtomicBool::new(false), desc: Mutex::new(String::new()) });
+            let s = Arc::new(Slot { ticks: AtomicU64::new(0), active: AtomicBool::new(false), ctx: Mutex::new(String::new()), desc: Mutex::new(String::new()), aux: AtomicU64::new(u64::MAX) });
             SLOTS.lock().unwrap().push(s.clone());
             *m = Some(s);
         }
@@ -46,6 +51,20 @@ pub fn enter(desc: impl FnOnce() -> String) {
     s.active.store(true, Ordering::Relaxed);
 }
 
+pub fn set_context(ctx: String) {
+    let s = my();
+    *s.ctx.lock().unwrap() = ctx;
+}
+
+#[inline]
+pub fn set_aux(i: u64) {
+    MY.with(|m| {
+        if let Some(s) = m.borrow().as_ref() {
+            s.aux.store(i, Ordering::Relaxed);
+        }
+    });
+}
+
 pub fn leave() {
     let s = my();
     s.active.store(false, Ordering::Relaxed);
@@ -53,7 +72,7 @@ pub fn leave() {
 
 /// Start the watchdog; `on_hang(desc)` is called once with the stuck thread's description
 /// and must not return (it writes the replay and exits the process).
-pub fn start(limit_s: u64, on_hang: impl Fn(String) + Send + 'static) {
+pub fn start(limit_s: u64, on_hang: impl Fn(String, String, u64) + Send + 'static) {
     std::thread::spawn(move || {
         let mut last: Vec<(u64, u64)> = Vec::new(); // (ticks, seconds stuck)
         loop {
@@ -66,7 +85,8 @@ pub fn start(limit_s: u64, on_hang: impl Fn(String) + Send + 'static) {
                     last[i].1 += 1;
                     if last[i].1 >= limit_s {
                         let d = s.desc.lock().unwrap().clone();
-                        on_hang(d);
+                        let c = s.ctx.lock().unwrap().clone();
+                        on_hang(c, d, s.aux.load(Ordering::Relaxed));
                     }
                 } else {
                     last[i] = (t, 0);
